@@ -19,6 +19,19 @@ Record xproto : Type := mkX {
 
 Definition nz (l : list Z) (i : nat) : Z := nth i l 0.
 
+(** Compact output (printing a list of a thousand numbers is slow): runs of ordinary bytes are packed,
+    up to 30 at a time, into one number [count * 2^240 + big-endian value] (< 2^248); pseudo-bytes
+    (group-element tokens, >= 256) are kept as they are (>= 2^260). *)
+Fixpoint pack_go (acc n : N) (l : bytes) : list N :=
+  match l with
+  | [] => if N.eqb n 0 then [] else [(n * 2 ^ 240 + acc)%N]
+  | b :: l' =>
+    if N.leb 256 b then (if N.eqb n 0 then [] else [(n * 2 ^ 240 + acc)%N]) ++ b :: pack_go 0%N 0%N l'
+    else if N.eqb n 29 then (30 * 2 ^ 240 + (acc * 256 + b))%N :: pack_go 0%N 0%N l'
+    else pack_go (acc * 256 + b)%N (n + 1)%N l'
+  end.
+Definition pack (l : bytes) : list N := pack_go 0%N 0%N l.
+
 (** honest proof: [c] the challenge scalar, [resp] the response scalars the prover output.
     Result: (commit = reconstruction?, recomputed response = response?, relation holds?,
              bytes hashed into the challenge, transcript state after the proof). *)
@@ -31,7 +44,7 @@ Definition x_honest (X : xproto) (k : tkind) (ctx : bytes) (pub wit : list Z) (c
     Some (bytes_eqb (p_ser_cm (xp X) a) (p_ser_cm (xp X) a'),
           bytes_eqb (p_ser_resp (xp X) z') (p_ser_resp (xp X) z),
           x_relb X s w,
-          frame (xp X) k ctx s a, after (xp X) k ctx s a z)
+          pack (frame (xp X) k ctx s a), pack (after (xp X) k ctx s a z))
   | _, _, _ => None
   end.
 
@@ -43,7 +56,7 @@ Definition x_verify (X : xproto) (k : tkind) (ctx : bytes) (pub : list Z) (chal 
   let s := x_stmt X pub in let z := x_resp X resp in
   let c := scalar_from_bytes_bls chal in
   match p_extract (xp X) s c z with
-  | Some a => Some (c, frame (xp X) k ctx s a, after (xp X) k ctx s a z)
+  | Some a => Some (c, pack (frame (xp X) k ctx s a), pack (after (xp X) k ctx s a z))
   | None => None
   end.
 
